@@ -211,7 +211,11 @@ def b_tuple(E, st, node, args, kw):
         return [(st, E.fresh("tuple", U), None)]  # opaque: nothing is assumed about it
     seq = E.as_seq(st, args[0])
     if seq.items is None:
-        raise Unsupported("tuple() of symbolic sequence")
+        f = z3.Function("tuple_of", U, U)  # opaque: only its identity as a function of the argument is kept
+        try:
+            return [(st, f(to_U(args[0])), None)]
+        except Unsupported:
+            return [(st, E.fresh("tuple", U), None)]
     return [(st, tuple(seq.items), None)]
 
 
@@ -374,6 +378,11 @@ def b_path_join(E, st, node, args, kw):
     return [(st, f(to_U(args[0]), to_U(args[1])), None)]
 
 
+def b_type(E, st, node, args, kw):
+    f = z3.Function("type_of", U, U)
+    return [(st, f(to_U(args[0])), None)]
+
+
 def b_len_U(E, st, node, args, kw):
     f = z3.Function("len_U", U, z3.IntSort())
     return [(st, f(to_U(args[0])), None)]
@@ -396,6 +405,7 @@ GLOBALS = {
     "implies": b_implies,
     "unpath": b_unpath,
     "item": b_item,
+    "type": b_type,
     "len_U": b_len_U,
     "path_join": b_path_join,
     "len": b_len,
